@@ -4,8 +4,8 @@ import (
 	"bytes"
 	"fmt"
 	"go/ast"
-	"go/printer"
 	"go/constant"
+	"go/printer"
 	"go/token"
 	"go/types"
 	"sort"
